@@ -12,7 +12,8 @@ RULE = ('exhaustive: every mixed-radix tuple for n=1,2 (n=3 in thorough, 1,451,5
         'Oracle: M Lambda M^T = Lambda over F2, round trip to_int_tuple(from_int_tuple(t)) = t (=> injective), #tuples = independent group '
         'order formula (=> bijective), brute-force enumeration of Sp(2,F2), Sp(4,F2) by the defining equation. Every tuple is non-trivial; '
         'distinct = tuple blocks / vector v0 / (n, digit-extremes signature).'
-        ' Matrices are also handed over in other memory layouts; transvection is applied to 2-4 dimensional stacks and with lists of 3-8 transvections (repeats included); rand_SpF2 over enumerated seeds must produce every digit value (n=1: all six elements); second-call clause for from_int_tuple / inverse.')
+        ' Matrices are also handed over in other memory layouts; transvection is applied to 2-4 dimensional stacks and with lists of 3-8 transvections (repeats included); rand_SpF2 over enumerated seeds must produce every digit value (n=1: all six elements); second-call clause for from_int_tuple / inverse.'
+        ' get_number(n) without kind; the whole group kept in a list; one transvection on 2-D / 3-D stacks.')
 ASSUMPTIONS = ['|Sp(2n,F2)| = prod_i (4^i-1) 2^(2i-1) (textbook formula, computed in vf/ref.py)',
                'injectivity is concluded from the exact round trip, surjectivity from counting (and brute force for n<=2)']
 
